@@ -144,5 +144,12 @@ def check(run):
     cached = [k for k, f in fields if 'route' in f['ty']]
     run.check(not cached, 'R2', 'no-cached-route', U, '', 'udp::socket caches a route in %s: datagrams could reach a socket that no longer holds the binding' % cached, 'no route-typed member')
     run.check(len(fwd) == 1 and not (st.cfg.node_block(fwd[0]) in st.cfg.reach_from(st.cfg.node_block(fwd[0]))), 'R4', 'one-packet-per-send', U + '::send_to_impl', st.loc(), 'send_to forwards more than one packet per call', 'exactly one forward_packet, outside loops')
+    run.clause('R9 a datagram read into several receive buffers is copied in order: the per-buffer copy reads from a source the loop advances')
+    ncp = engines.copy_sources_advance(run, [f for f in fx.repo_functions() if q.top_function(fx, f).cls == U])
+    if ncp < 1:
+        run.broke('udp::socket: no copy out of the incoming queue found in a loop (read idiom changed)')
+    run.clause('a datagram goes only to the socket bound to exactly the destination endpoint: registry lookups select by exact key (shared with C11)')
+    import p11
+    p11.exact_key_rule(run)
     run.floor('R7', 14)
     run.floor('R9', 2)
